@@ -95,5 +95,9 @@ def san_kind(txt):
     else:
         return None, None
     fr = re.findall(r'#\d+ 0x[0-9a-f]+ in (Avoid::[A-Za-z_:~]+)', txt)
+    if kind == 'asan:stack-overflow':
+        # the top frame is wherever the stack happened to run out: name the recursion by the (alphabetically first) frame that repeats
+        rep = sorted({f for f in fr if fr.count(f) >= 2})
+        return kind, ('recursion-through-' + rep[0]) if rep else (fr[0] if fr else '?')
     loc = re.search(r'(\w+\.cpp:\d+):\d+: runtime error', txt)
     return kind, (fr[0] if fr else (loc.group(1) if loc else '?'))
